@@ -66,13 +66,24 @@ def confirm(prop, src, name):
             return 1
         dst = os.path.join(SEEDED, "%s-%s" % (prop, name))
         os.makedirs(dst, exist_ok=True)
-        shutil.copy(patch, os.path.join(dst, "patch.diff"))
-        shutil.copy(demo, os.path.join(dst, "demo.py"))
+        if os.path.abspath(patch) != os.path.abspath(os.path.join(dst, "patch.diff")):
+            shutil.copy(patch, os.path.join(dst, "patch.diff"))
+            shutil.copy(demo, os.path.join(dst, "demo.py"))
         notes = os.path.join(src, "notes.md")
         if os.path.exists(notes):
-            shutil.copy(notes, os.path.join(dst, "notes.md"))
+            if os.path.abspath(notes) != os.path.abspath(os.path.join(dst, "notes.md")):
+                shutil.copy(notes, os.path.join(dst, "notes.md"))
             rec["needs"] = _needs(open(notes).read())
-        with open(os.path.join(dst, "meta.json"), "w") as f:
+        mp = os.path.join(dst, "meta.json")
+        if os.path.exists(mp):
+            try:
+                old_meta = json.load(open(mp))
+                for k in ("checks", "checked_at"):
+                    if k in old_meta:
+                        rec[k] = old_meta[k]
+            except Exception:
+                pass
+        with open(mp, "w") as f:
             json.dump(rec, f, indent=1)
         return 0
     finally:
